@@ -24,4 +24,12 @@ Terminates == <>done
 \* the pinned loop (Shipped) has no at-least-one-row guard
 Abs == INSTANCE LoopTermination WITH Guard <- ~Shipped, idx <- index - 1, mi <- mi, nrows <- N - 1, nmeas <- Len(Mts) - 1, fin <- done
 RefinesAbstraction == Abs!ASpec
+
+\* ... and the counting abstraction whose exactly-once invariants Apalache proves for ALL sizes (ExactlyOnce.tla)
+InSpanEpochs == {k \in 1..(Len(Mts) - 1) : Mts[k] < End}
+MIn == Cardinality(InSpanEpochs)
+Behind == Cardinality({k \in InSpanEpochs : index <= N /\ Mts[k] < Times[index]})
+DueCnt == IF index + 1 <= N THEN Cardinality({k \in InSpanEpochs : Mts[k] < Times[index + 1]}) ELSE MIn
+Once == INSTANCE ExactlyOnce WITH Inner <- ~Shipped, i <- index - 1, mi <- mi, n <- N - 1, m <- MIn, b <- Behind, d <- DueCnt, fin <- done
+RefinesExactlyOnce == Once!ESpec
 =============================================================================
